@@ -229,8 +229,8 @@ func runC19(rc *RunCtx) {
 	rc.Level = "exploration"
 	rc.Cov = map[string]interface{}{
 		"evaluations": int(evals), "distinct_nontrivial": len(seenNT),
-		"rule":        "every (configuration, initial supply, millisecond-aligned instant, direct / via a block 1ms earlier) of the product alphabet; the real minter BeginBlocker runs at the instant and the Inflation query and Mint event are read in the state it leaves. Non-trivial = distinct (configuration, supply, instant) at which the schedule is emitting (rate > 0).",
-		"samples":     samples, "configurations": len(cfgs), "interval_checks": int(intervalChecks), "zero_rate_cases": int(zeroCases),
+		"rule":    "every (configuration, initial supply, millisecond-aligned instant, direct / via a block 1ms earlier) of the product alphabet; the real minter BeginBlocker runs at the instant and the Inflation query and Mint event are read in the state it leaves. Non-trivial = distinct (configuration, supply, instant) at which the schedule is emitting (rate > 0).",
+		"samples": samples, "configurations": len(cfgs), "interval_checks": int(intervalChecks), "zero_rate_cases": int(zeroCases),
 		"nontrivial_evaluations": int(nontrivial), "exhaustive": true,
 	}
 	rc.Assume = []string{"tolerance = fixed-point error bound derived from the operation count (k roundings amplified by year/step, two truncations)", "reported inflation is evaluated only in states left by the real BeginBlocker"}
